@@ -1854,56 +1854,51 @@ Proof.
   - rewrite app_nil_r. exact HGB.
 Qed.
 
-(* ---- arguments of internal functions: closures (function definitions called through pushpc / callpc) ---- *)
+(* ---- calls: closures (function definitions called through pushpc / callpc) and user-defined functions ---- *)
 
-(* the argument is a closure: jump over it; at the call site load v, push (entry pc, current scope index), callpc.
-   The callee runs in a new frame above the current offset; opret pops the frame and, when no fork created since
-   the frame was pushed is pending, gives its variables back *)
-Lemma G_arg_closure : forall q, Impl q -> forall sc cur base, frameOK sc cur base ->
-  forall ce p sn cb nvc s1 k, cur < sn -> comp q ce sn (p + 2) 0 (S sn) = Some (cb, nvc, s1) ->
-  code_at p (Ijump (p + 2 + length cb + 1) :: Iscope sn nvc 0 :: cb ++ [Iret; Iload (cur, k); Ipushpc (S p); Icallpc]) ->
-  forall cx rho v (P : list sv -> nat -> gx -> Prop) vs n o g,
-    g_sc cx = sc -> g_pc cx = p + 2 + length cb + 4 -> g_off cx = o -> ce_lbls (g_ce cx) = ce_lbls ce ->
+(* entering a function at its opscope with the locals (callpc, index) = (rpc, current scope): the callee runs in a
+   new frame above the current offset; opret pops the frame, continues after the call and, when no fork created
+   since the frame was pushed is pending, gives its variables back.  The callee's environment ce must be valid in
+   the caller's scope chain (its slots belong to scopes older than the callee's) *)
+Lemma G_call : forall m q, Lemmas.Impl nt code m q -> forall sc cur base, frameOK sc cur base ->
+  forall ce pe idf cb nvc s0 s1, ce_lt ce idf = true -> at_ pe (Iscope idf nvc 0) ->
+  comp q ce idf (S pe) 0 s0 = Some (cb, nvc, s1) -> code_at (S pe) (cb ++ [Iret]) ->
+  forall cx rho v (P : list sv -> nat -> gx -> Prop) vs n o g rpc,
+    g_sc cx = sc -> g_pc cx = S rpc -> g_off cx = o ->
+    (forall vs' fin e, encR sc ce vs' fin e -> encR sc (g_ce cx) vs' fin e) ->
     (forall i, o <= i -> g_own cx i) -> (forall i, kept sc ce i -> g_keep cx i) -> (forall i, g_keep0 cx i -> g_keep cx i) ->
     g_koff cx <= o -> envOK sc ce rho vs (g_n0 cx) o -> g_n0 cx <= n -> o <= length vs -> g_ctr cx <= ctr g ->
-    nth_error vs (base + k) = Some (SV v) ->
-    (forall a b m x m' x', P a m x -> chg (fun i => o <= i) a b -> cle m x m' x' -> P b m' x') ->
-    (forall a b m x m' x', P a m x -> keepK0 cx a b -> cle m x m' x' -> P b m' x') ->
+    creg g = (Some rpc, sc) ->
+    (forall a b m0 x m' x', P a m0 x -> chg (fun i => o <= i) a b -> cle m0 x m' x' -> P b m' x') ->
+    (forall a b m0 x m' x', P a m0 x -> keepK0 cx a b -> cle m0 x m' x' -> P b m' x') ->
     P vs n g ->
-    G cx (fst (den q rho v)) (Tend cx (snd (den q rho v)) P) (N sc p (g_st cx) (g_base cx) vs n o g).
+    G cx (fst (den1 nt (call_of nt m) q rho v)) (Tend cx (snd (den1 nt (call_of nt m) q rho v)) P)
+      (N sc pe (SV v :: g_st cx) (g_base cx) vs n o g).
 Proof.
-  intros q IH sc cur base Hfr ce p sn cb nvc s1 k Hlt Ec Hat cx rho v P vs n o g Hsc Hpc Hoff Hlb Hown HK2 HK0 Hko HE Hn Hlen Hct Hv HP1 HP2 HP.
-  pose proof (frameOK_cur _ _ _ Hfr) as Hcur.
-  replace (p + 2) with (S (S p)) in * by lia.
-  set (pr := S (S p) + length cb) in *.
-  replace (pr + 1) with (S pr) in Hat by lia.
-  uncons Hat A0. uncons Hat A1. destruct (code_at_app _ _ _ _ Hat) as [Hatc Hat2]. fold pr in Hat2.
-  uncons Hat2 A2. uncons Hat2 A3. uncons Hat2 A4. uncons Hat2 A5.
-  set (pcall := S (S (S pr))) in *.
-  assert (Epc : g_pc cx = S pcall) by (rewrite Hpc; unfold pcall; lia).
-  set (Fr := Frame sn o pcall (ctr g) sc sc).
+  intros m q IH sc cur base Hfr ce pe idf cb nvc s0 s1 Hce A1 Ec Hat cx rho v P vs n o g rpc Hsc Hpc Hoff Henc Hown HK2 HK0 Hko HE Hn Hlen Hct Hcr HP1 HP2 HP.
+  destruct (code_at_app _ _ _ _ Hat) as [Hatc Hat2]. uncons Hat2 A2.
+  set (pr := S pe + length cb) in *.
+  set (Fr := Frame idf o rpc (ctr g) sc (outer_of sc idf sc)).
   set (sc' := Fr :: sc).
   set (vs' := grow vs (o + nvc)).
-  set (g1 := {| ctr := S (ctr g); creg := (pcall, sc) |}).
-  assert (Hne : sc <> []).
-  { destruct (frameOK_top _ _ _ Hfr) as (i0 & o0 & p0 & s0 & sv0 & out0 & r0 & -> & _). discriminate. }
-  assert (St0 : steps (N sc p (g_st cx) (g_base cx) vs n o g) (N sc' (S (S p)) (SV v :: g_st cx) (g_base cx) vs' n (o + nvc) g1)).
-  { one st_jump. eapply steps_step; [eapply st_load; [exact A3|apply Hcur|exact Hv]|].
-    one st_pushpc. one st_callpc. eapply steps_step; [eapply st_scope; exact A1|].
-    simpl. rewrite (outer_of_self _ _ _ _ Hfr Hlt). apply steps_refl. }
-  assert (Hfr' : frameOK sc' sn o) by (apply (frameOK_push _ _ _ _ _ _ _ Hfr Hlt)).
+  set (g1 := {| ctr := S (ctr g); creg := creg g |}).
+  assert (Hne : sc <> []) by (eapply frameOK_ne; eauto).
+  assert (Hps : pushed sc idf sc') by (exists o, rpc, (ctr g), sc, sc; reflexivity).
+  assert (St0 : steps (N sc pe (SV v :: g_st cx) (g_base cx) vs n o g) (N sc' (S pe) (SV v :: g_st cx) (g_base cx) vs' n (o + nvc) g1)).
+  { eapply steps_step; [eapply st_scope; [exact A1|exact Hcr]|]. apply steps_refl. }
+  assert (Hfr' : frameOK sc' idf o) by (exists rpc, (ctr g), sc, (outer_of sc idf sc), sc; reflexivity).
   assert (HE' : envOK sc' ce rho vs' (g_n0 cx) (o + 0)).
-  { rewrite Nat.add_0_r. eapply envOK_push; eauto. intros a Ha. apply grow_nth. lia. }
+  { rewrite Nat.add_0_r. eapply envOK_pushed; eauto. intros a Ha. apply grow_nth. lia. }
   assert (Hl' : o + nvc <= length vs') by apply grow_len.
   set (K' := fun i => g_keep cx i \/ o <= i < o + nvc).
-  pose proof (IH sc' sn o Hfr' ce (S (S p)) 0 (S sn) cb nvc s1 Ec Hatc rho v (g_st cx) (g_base cx) vs' n (g_n0 cx) (o + nvc) (o + nvc) g1 K' (g_keep0 cx) P
+  pose proof (IH sc' idf o Hfr' ce (S pe) 0 s0 cb nvc s1 Ec Hatc rho v (g_st cx) (g_base cx) vs' n (g_n0 cx) (o + nvc) (o + nvc) g1 K' (g_keep0 cx) P
                 HE' Hn (le_n _) (le_n _) Hl') as HC. cbv zeta in HC. fold pr in HC.
   set (c' := ctx_of sc' pr (g_st cx) (g_base cx) (o + 0) (o + nvc) (o + nvc) (o + nvc) K' (g_keep0 cx) ce (g_n0 cx) (ctr g1)) in *.
   assert (Hoc : forall i, g_own c' i -> g_own cx i) by (simpl; intros i Hi; apply Hown; lia).
   assert (Tc : forall fin s, Tend c' fin P s -> Tend cx fin P s).
-  { intros fin s (e & vs4 & n4 & g4 & St4 & Ch4 & Le4 & HE4 & HP4). exists e, vs4, n4, g4.
+  { intros fin s HT. tend_inv HT as (e & vs4 & n4 & g4 & St4 & Ch4 & Le4 & HE4 & HP4). apply Tend_of. exists e, vs4, n4, g4.
     split; [exact St4|]. split; [exact (chg_mono _ _ _ _ Hoc Ch4)|]. split; [exact Le4|]. split; [|exact HP4].
-    rewrite Hsc. eapply encR_lbls; [symmetry; exact Hlb|]. simpl in HE4. eapply encR_push; eauto. }
+    rewrite Hsc. apply Henc. simpl in HE4. eapply encR_pushed; eauto. }
   assert (Conv : forall ws fin s, G c' ws (Tend c' fin P) s -> G cx ws (Tend cx fin P) s).
   { induction ws as [|w ws IHws]; intros fin s HG.
     - destruct HG as (s' & St & Ch & Le & HT). exists s'. split; [exact St|]. split; [exact (chg_mono _ _ _ _ Hoc Ch)|].
@@ -1914,14 +1909,14 @@ Proof.
       destruct fk' as [|f0 fk0].
       + destruct R as [E R].
         exists [], vs3, n3, (if (match [] ++ g_base cx with [] => true | f :: _ => f_ctr f <=? ctr g end) then o else o3), g3.
-        split. { eapply steps_trans; [exact St|]. eapply steps_step; [|apply steps_refl]. rewrite Hsc, Epc. eapply st_ret; [exact A2|exact Hne]. }
+        split. { eapply steps_trans; [exact St|]. eapply steps_step; [|apply steps_refl]. rewrite Hsc, Hpc. eapply st_ret; [exact A2|exact Hne]. }
         split; [exact (chg_mono _ _ _ _ Hoc Ch)|]. split; [exact Le|].
         split. { split; [|exact Hfk']. rewrite Hoff. destruct (match [] ++ g_base cx with [] => true | f :: _ => f_ctr f <=? ctr g end); lia. }
         split; [exact E|]. intros vs2 n2 g2 Kp L2. apply Tc. apply R; [exact Kp|exact L2].
       + assert (Hnf : (f_ctr f0 <=? ctr g) = false).
         { apply Nat.leb_gt. inversion Hfk; subst. simpl in H1. lia. }
         exists (f0 :: fk0), vs3, n3, o3, g3.
-        split. { eapply steps_trans; [exact St|]. eapply steps_step; [|apply steps_refl]. rewrite Hsc, Epc.
+        split. { eapply steps_trans; [exact St|]. eapply steps_step; [|apply steps_refl]. rewrite Hsc, Hpc.
                  etransitivity; [eapply st_ret; [exact A2|exact Hne]|]. simpl. rewrite Hnf. reflexivity. }
         split; [exact (chg_mono _ _ _ _ Hoc Ch)|]. split; [exact Le|].
         split. { split; [|exact Hfk']. rewrite Hoff. lia. }
@@ -1936,20 +1931,95 @@ Proof.
     destruct (Nat.lt_ge_cases i (length vs)) as [Hl|Hl]; [exact Hl|]. exfalso. apply Hi, Hown. lia. }
   apply Conv. apply HC.
   - intros i Hi. unfold K'. right. lia.
-  - intros i Hi. unfold K'. left. apply HK2. eapply kept_push; eauto.
+  - intros i Hi. unfold K'. left. apply HK2. eapply kept_pushed; eauto.
   - intros i Hi. unfold K'. left. apply HK0. exact Hi.
   - split.
-    + intros a b m x m' x' Hp C Hm. eapply HP1; [exact Hp| |exact Hm]. eapply chg_mono; [|exact C]. simpl; intros; lia.
-    + intros a b m x m' x' Hp C Hm. eapply HP2; [exact Hp|exact C|exact Hm].
+    + intros a b m0 x m' x' Hp C Hm. eapply HP1; [exact Hp| |exact Hm]. eapply chg_mono; [|exact C]. simpl; intros; lia.
+    + intros a b m0 x m' x' Hp C Hm. eapply HP2; [exact Hp|exact C|exact Hm].
   - eapply HP1; [exact HP| |unfold g1; cl]. split; [apply grow_len_le|]. intros i Hi. symmetry. apply grow_nth. lia.
 Qed.
 
-(* an argument in any of its three forms: load v (empty body), an inlined instruction, a closure *)
-Lemma G_arg : forall q, Impl q -> forall sc cur base, frameOK sc cur base ->
-  forall ce p sn cb nvc s1 k, cur < sn -> comp q ce sn (p + 2) 0 (S sn) = Some (cb, nvc, s1) ->
-  code_at p (arg_code (cur, k) p sn cb nvc) ->
+(* a function definition: jump over it; in the rest of the query the function is visible *)
+Lemma ce_lt_add_fun : forall ce f p sn, ce_lt ce sn = true ->
+  ce_lt {| ce_env := (f, CF p) :: ce_env ce; ce_lbls := [] |} sn = true.
+Proof.
+  intros ce f p sn H. unfold ce_lt in *. apply andb_true_iff in H. destruct H as [H _]. simpl. rewrite H. reflexivity.
+Qed.
+
+Lemma impl_def : forall f ps body rest, Impl rest -> Impl (QDef f ps body rest).
+Proof.
+  intros f ps body rest IHr. impl_intro. destruct ps as [|p0 ps]; [|simpl in Hc; discriminate].
+  destruct (comp_def_inv _ _ _ _ _ _ _ _ _ _ _ Hc) as (Hlt & Hce & cb & nvb & s1 & cr & Eb & Er & ->). clear Hc.
+  uncons Hat A0. uncons Hat A1. destruct (code_at_app _ _ _ _ Hat) as [Hatb Hat2]. uncons Hat2 A2. rename Hat2 into Hatr.
+  set (l := pc + 2 + length cb + 1) in *.
+  replace (S (S (S pc) + length cb)) with l in Hatr by (unfold l; lia).
+  assert (Epc : pc + length (Ijump l :: Iscope sn nvb 0 :: cb ++ Iret :: cr) = l + length cr).
+  { simpl. rewrite app_length. simpl. unfold l. lia. }
+  subst c. rewrite Epc.
+  cbn [Den.den1].
+  eapply G_pre; [one st_jump; apply steps_refl|apply chg_refl|cl|].
+  refine (G_sub nt code (ctx_of sc (l + length cr) st fk (base + nv) (base + nv') o ko K K0 (add_fun ce f (S pc)) n0 (ctr g))
+            (ctx_of sc (l + length cr) st fk (base + nv) (base + nv') o ko K K0 ce n0 (ctr g)) _ _
+            eq_refl eq_refl eq_refl eq_refl (fun _ H => H) (fun _ _ _ H => H) (fun _ _ H => H) (le_n _) (le_n _) (le_n _) _ _ _
+            (IHr sc cur base Hfr (add_fun ce f (S pc)) l nv s1 cr nv' sn' Er Hatr ((f, BF body) :: rho) v st fk vs n n0 o ko g K K0 P _ Hn Hko Hoo Hlen HK1 _ HK0 _ HP)).
+  - intros s0. apply Tend_sub; auto.
+  - apply envOK_add_fun; [exact HE|].
+    exists sn, nvb, cb, (S sn), s1. split; [exact A1|]. split.
+    + replace (S pc + 1) with (pc + 2) by lia. exact Eb.
+    + split; [|apply ce_lt_add_fun; exact Hce].
+      intros i x Hi. replace (S pc + 1 + i) with (S (S pc) + i) by lia.
+      destruct (Nat.lt_ge_cases i (length cb)) as [Hl|Hl].
+      * rewrite nth_error_app1 in Hi by exact Hl. apply Hatb. exact Hi.
+      * rewrite nth_error_app2 in Hi by exact Hl. destruct (i - length cb) as [|[|?]] eqn:Ei; simpl in Hi; try discriminate.
+        inversion Hi; subst x. replace (S (S pc) + i) with (S (S pc) + length cb) by lia. exact A2.
+  - intros i Hi. apply HK2. eapply kept_add_fun; eauto.
+  - split; auto.
+Qed.
+
+(* a call of a user-defined function with one unit of fuel less: opcall pc enters the function's opscope with
+   callpc = the pc of the call and index = the current scope; the body is the function's own code, compiled in the
+   part of the environment that starts at the function's entry *)
+Lemma suffix_In : forall {A} (pre l : list A) x, In x l -> In x (pre ++ l).
+Proof. intros. apply in_or_app. right; auto. Qed.
+
+Lemma impl_callf : forall f args, Impl (QCallF f args).
+Proof.
+  intros f args. impl_intro. destruct args as [|a0 args]; [|simpl in Hc; discriminate].
+  simpl in Hc. destruct (lookup_cf f (ce_env ce)) as [p|] eqn:Ef; [|discriminate].
+  inversion Hc; subst cq nv' sn'. clear Hc. uncons Hat A1.
+  pose proof HE as [Hv Hl].
+  destruct (envOKl_fun _ _ _ _ _ _ _ Hv Ef) as (body & cel' & rho' & pre & Hlf & (idf & nvb & cb & s0 & s1 & Hsc & Hcb & Hcode & Hclt) & Hv' & Epre).
+  cbn [Den.den1]. rewrite Hlf.
+  case_eq fu; [intros Efu|intros m Efu].
+  - (* no fuel: nothing is claimed *) cbn [call_of fst snd]. apply G_fuel.
+  - cbn [call_of].
+    assert (Hm : m < fu) by lia.
+    set (ceb := {| ce_env := cel'; ce_lbls := [] |}) in *.
+    assert (HEb : envOK sc ceb rho' vs n0 o).
+    { split; [eapply envOKl_lim; [exact Hv'|lia]|]. simpl. intros l0 y Hy. discriminate. }
+    assert (Hkb : forall i, kept sc ceb i -> kept sc ce i).
+    { intros i [(x & y & Hx & Hi)|(l0 & y & Hx & Hi)]; [|simpl in Hx; discriminate].
+      left. exists x, y. split; [rewrite Epre; apply suffix_In; exact Hx|exact Hi]. }
+    assert (HcbS : comp body ceb idf (S p) 0 s0 = Some (cb, nvb, s1)) by (replace (S p) with (p + 1) by lia; exact Hcb).
+    assert (HatS : code_at (S p) (cb ++ [Iret])).
+    { intros i x Hi. replace (S p + i) with (p + 1 + i) by lia. apply Hcode. exact Hi. }
+    eapply G_pre; [one st_callf; apply steps_refl|apply chg_refl|cl|].
+    subst c.
+    apply (G_call m body (IHfu m Hm body) sc cur base Hfr ceb p idf cb nvb s0 s1 Hclt Hsc HcbS HatS
+             (ctx_of sc (pc + length [Icallf p]) st fk (base + nv) (base + nv) o ko K K0 ce n0 (ctr g))
+             rho' v P vs n o {| ctr := ctr g; creg := (Some pc, sc) |} pc); simpl; auto; try lia.
+    + intros vs' fin e HEn. destruct fin as [[e0|l0|]|]; simpl in *; auto.
+      destruct HEn as (x & k & id & Hk & _). discriminate.
+    + intros a b m0 x m' x' Hp C Hm0. eapply S1; [exact Hp| |exact Hm0]. eapply chg_mono; [|exact C]. simpl. intros; lia.
+    + eapply S1; [exact HP|apply chg_refl|cl].
+Qed.
+
+(* the argument is a closure: jump over it; at the call site load v, push (entry pc, current scope index), callpc *)
+Lemma G_arg_closure : forall q, Impl q -> forall sc cur base, frameOK sc cur base ->
+  forall ce p sn cb nvc s1 k, cur < sn -> ce_lt ce sn = true -> comp q ce sn (p + 2) 0 (S sn) = Some (cb, nvc, s1) ->
+  code_at p (Ijump (p + 2 + length cb + 1) :: Iscope sn nvc 0 :: cb ++ [Iret; Iload (cur, k); Ipushpc (S p); Icallpc]) ->
   forall cx rho v (P : list sv -> nat -> gx -> Prop) vs n o g,
-    g_sc cx = sc -> g_pc cx = p + length (arg_code (cur, k) p sn cb nvc) -> g_off cx = o -> ce_lbls (g_ce cx) = ce_lbls ce ->
+    g_sc cx = sc -> g_pc cx = p + 2 + length cb + 4 -> g_off cx = o -> ce_lbls (g_ce cx) = ce_lbls ce ->
     (forall i, o <= i -> g_own cx i) -> (forall i, kept sc ce i -> g_keep cx i) -> (forall i, g_keep0 cx i -> g_keep cx i) ->
     g_koff cx <= o -> envOK sc ce rho vs (g_n0 cx) o -> g_n0 cx <= n -> o <= length vs -> g_ctr cx <= ctr g ->
     nth_error vs (base + k) = Some (SV v) ->
@@ -1958,8 +2028,48 @@ Lemma G_arg : forall q, Impl q -> forall sc cur base, frameOK sc cur base ->
     P vs n g ->
     G cx (fst (den q rho v)) (Tend cx (snd (den q rho v)) P) (N sc p (g_st cx) (g_base cx) vs n o g).
 Proof.
-  intros q IH sc cur base Hfr ce p sn cb nvc s1 k Hlt Ec Hat cx rho v P vs n o g Hsc Hpc Hoff Hlb Hown HK2 HK0 Hko HE Hn Hlen Hct Hv HP1 HP2 HP.
+  intros q IH sc cur base Hfr ce p sn cb nvc s1 k Hlt Hce Ec Hat cx rho v P vs n o g Hsc Hpc Hoff Hlb Hown HK2 HK0 Hko HE Hn Hlen Hct Hv HP1 HP2 HP.
   pose proof (frameOK_cur _ _ _ Hfr) as Hcur.
+  replace (p + 2) with (S (S p)) in * by lia.
+  set (pr := S (S p) + length cb) in *.
+  replace (pr + 1) with (S pr) in Hat by lia.
+  uncons Hat A0. uncons Hat A1.
+  assert (Hatb : code_at (S (S p)) (cb ++ [Iret])).
+  { intros i x Hi. apply Hat. destruct (Nat.lt_ge_cases i (length cb)) as [Hl|Hl].
+    - rewrite nth_error_app1 in Hi by exact Hl. rewrite nth_error_app1 by exact Hl. exact Hi.
+    - rewrite nth_error_app2 in Hi by exact Hl. rewrite nth_error_app2 by exact Hl.
+      destruct (i - length cb) as [|[|?]]; simpl in *; try discriminate. exact Hi. }
+  destruct (code_at_app _ _ _ _ Hat) as [_ Hat2]. fold pr in Hat2.
+  uncons Hat2 A2. uncons Hat2 A3. uncons Hat2 A4. uncons Hat2 A5.
+  set (pcall := S (S (S pr))) in *.
+  eapply G_pre; [one st_jump; eapply steps_step; [eapply st_load; [exact A3|apply Hcur|exact Hv]|]; one st_pushpc; one st_callpc; apply steps_refl
+                |apply chg_refl|cl|].
+  apply (G_call fu q IH sc cur base Hfr ce (S p) sn cb nvc (S sn) s1 Hce A1 Ec Hatb cx rho v P vs n o
+           {| ctr := ctr g; creg := (Some pcall, sc) |} pcall); auto.
+  - rewrite Hpc. unfold pcall. lia.
+  - intros vs' fin e HEn. eapply encR_lbls; [symmetry; exact Hlb|exact HEn].
+  - eapply HP1; [exact HP|apply chg_refl|cl].
+Qed.
+
+(* an argument in any of its forms: load v (empty body), an inlined instruction (a native generator or a call of
+   a user-defined function, executed in the caller's frame), a closure *)
+Lemma G_arg : forall q, Impl q -> forall sc cur base, frameOK sc cur base ->
+  forall ce p sn cb nvc s1 k, cur < sn -> ce_lt ce sn = true -> comp q ce sn (p + 2) 0 (S sn) = Some (cb, nvc, s1) ->
+  code_at p (arg_code (cur, k) p sn cb nvc) ->
+  forall cx rho v (P : list sv -> nat -> gx -> Prop) vs n o g nvl,
+    g_sc cx = sc -> g_pc cx = p + length (arg_code (cur, k) p sn cb nvc) -> g_off cx = o -> ce_lbls (g_ce cx) = ce_lbls ce ->
+    (forall i, o <= i -> g_own cx i) -> (forall i, kept sc ce i -> g_keep cx i) -> (forall i, g_keep0 cx i -> g_keep cx i) ->
+    g_koff cx <= o -> envOK sc ce rho vs (g_n0 cx) (base + nvl) -> base + nvl <= g_koff cx ->
+    g_n0 cx <= n -> o <= length vs -> g_ctr cx <= ctr g ->
+    nth_error vs (base + k) = Some (SV v) ->
+    (forall a b m x m' x', P a m x -> chg (fun i => o <= i) a b -> cle m x m' x' -> P b m' x') ->
+    (forall a b m x m' x', P a m x -> keepK0 cx a b -> cle m x m' x' -> P b m' x') ->
+    P vs n g ->
+    G cx (fst (den q rho v)) (Tend cx (snd (den q rho v)) P) (N sc p (g_st cx) (g_base cx) vs n o g).
+Proof.
+  intros q IH sc cur base Hfr ce p sn cb nvc s1 k Hlt Hce Ec Hat cx rho v P vs n o g nvl Hsc Hpc Hoff Hlb Hown HK2 HK0 Hko HEl Hnvl Hn Hlen Hct Hv HP1 HP2 HP.
+  pose proof (frameOK_cur _ _ _ Hfr) as Hcur.
+  assert (HE : envOK sc ce rho vs (g_n0 cx) o) by (eapply envOK_lim; [exact HEl|lia]).
   destruct cb as [|x [|x2 r]].
   - (* empty body: load v *)
     destruct (comp_nil _ _ _ _ _ _ _ _ Ec) as (E1 & -> & ->). rewrite (emptycode_den nt _ _ E1). cbn [fst snd].
@@ -1970,45 +2080,57 @@ Proof.
     intros vs2 n2 g2 Kp L2. eapply HP2; eauto.
   - destruct (Nat.eqb_spec nvc 0) as [->|Hnz].
     + (* one instruction that owns no variable *)
-      destruct (comp_single nt _ _ _ _ _ _ _ _ _ Ec) as [Hs Hd]. rewrite Hd.
       unfold arg_code in Hat, Hpc. simpl Nat.eqb in Hat, Hpc. cbv iota in Hat, Hpc.
-      destruct x; try discriminate Hs; simpl in Hat, Hpc.
-      * (* const *) uncons Hat A0. cbn [den1 fst snd].
-        eapply G_single with (o3 := o); [rewrite Hsc, Hpc; replace (p + 1) with (S p) by lia; one st_push; apply steps_refl
-                         |apply chg_refl|cl|rewrite Hoff; lia|].
-        intros vs2 n2 g2 Kp L2. eapply HP2; eauto.
-      * (* backtrack *) uncons Hat A0. uncons Hat A1. cbn [den1 fst snd].
-        eapply G_end; [eapply steps_step; [eapply st_load; [exact A0|apply Hcur|exact Hv]|]; rewrite <- Hsc; one st_backtrack; apply steps_refl
-                      |apply chg_refl|cl|reflexivity|exact HP].
-      * (* index *) uncons Hat A0. uncons Hat A1. cbn [den1].
-        eapply G_pre; [eapply steps_step; [eapply st_load; [exact A0|apply Hcur|exact Hv]|apply steps_refl]|apply chg_refl|cl|].
-        rewrite <- Hsc. apply G_index with (o := o); auto; try lia.
-      * (* call *) destruct f; try discriminate Hs. uncons Hat A0. uncons Hat A1. cbn [den1].
-        destruct (n_fn0 nt f v) as [w|e] eqn:E; cbn [of_sum fst snd].
-        -- eapply G_single with (o3 := o); [rewrite Hpc; replace (p + 2) with (S (S p)) by lia;
-                            eapply steps_step; [eapply st_load; [exact A0|apply Hcur|exact Hv]|]; rewrite Hsc; one st_call0_ok; apply steps_refl
-                           |apply chg_refl|cl|rewrite Hoff; lia|].
+      destruct (comp_single nt (call_of nt fu) _ _ _ _ _ _ _ _ Ec) as [[Hs Hd]|(f & pf & -> & Hlf & Hd)]; rewrite Hd.
+      * destruct x; try discriminate Hs; simpl in Hat, Hpc.
+        -- (* const *) uncons Hat A0. cbn [den_instr fst snd].
+           eapply G_single with (o3 := o); [rewrite Hsc, Hpc; replace (p + 1) with (S p) by lia; one st_push; apply steps_refl
+                            |apply chg_refl|cl|rewrite Hoff; lia|].
            intros vs2 n2 g2 Kp L2. eapply HP2; eauto.
-        -- eapply G_end; [eapply steps_step; [eapply st_load; [exact A0|apply Hcur|exact Hv]|]; one st_call0_err; apply steps_refl
+        -- (* backtrack *) uncons Hat A0. uncons Hat A1. cbn [den_instr fst snd].
+           eapply G_end; [eapply steps_step; [eapply st_load; [exact A0|apply Hcur|exact Hv]|]; rewrite <- Hsc; one st_backtrack; apply steps_refl
                          |apply chg_refl|cl|reflexivity|exact HP].
-      * (* iter *) uncons Hat A0. uncons Hat A1. cbn [den1].
+        -- (* index *) uncons Hat A0. uncons Hat A1. cbn [den_instr].
+           eapply G_pre; [eapply steps_step; [eapply st_load; [exact A0|apply Hcur|exact Hv]|apply steps_refl]|apply chg_refl|cl|].
+           rewrite <- Hsc. apply G_index with (o := o); auto; try lia.
+        -- (* call *) destruct f; try discriminate Hs. uncons Hat A0. uncons Hat A1. cbn [den_instr].
+           destruct (n_fn0 nt f v) as [w|e] eqn:E; cbn [of_sum fst snd].
+           ++ eapply G_single with (o3 := o); [rewrite Hpc; replace (p + 2) with (S (S p)) by lia;
+                               eapply steps_step; [eapply st_load; [exact A0|apply Hcur|exact Hv]|]; rewrite Hsc; one st_call0_ok; apply steps_refl
+                              |apply chg_refl|cl|rewrite Hoff; lia|].
+              intros vs2 n2 g2 Kp L2. eapply HP2; eauto.
+           ++ eapply G_end; [eapply steps_step; [eapply st_load; [exact A0|apply Hcur|exact Hv]|]; one st_call0_err; apply steps_refl
+                            |apply chg_refl|cl|reflexivity|exact HP].
+        -- (* iter *) uncons Hat A0. uncons Hat A1. cbn [den_instr].
+           eapply G_pre; [eapply steps_step; [eapply st_load; [exact A0|apply Hcur|exact Hv]|apply steps_refl]|apply chg_refl|cl|].
+           rewrite <- Hsc. apply G_iter with (o := o); auto; try lia.
+      * (* a call of a user-defined function, in the caller's frame *)
+        simpl in Hat, Hpc. uncons Hat A0.
         eapply G_pre; [eapply steps_step; [eapply st_load; [exact A0|apply Hcur|exact Hv]|apply steps_refl]|apply chg_refl|cl|].
-        rewrite <- Hsc. apply G_iter with (o := o); auto; try lia.
+        assert (Ecf : comp (QCallF f []) ce cur (S p) nvl sn = Some ([Icallf pf], nvl, sn)) by (simpl; rewrite Hlf; reflexivity).
+        apply (impl_body (QCallF f []) (impl_callf f []) sc cur base Hfr ce (S p) nvl sn [Icallf pf] nvl sn Ecf Hat cx rho v vs n o g P); auto; try lia.
+        -- rewrite Hpc. simpl. lia.
+        -- intros i [Hi|Hi]; [lia|auto].
+        -- intros a b m x m' x' Hp C Hm. eapply HP1; [exact Hp| |exact Hm]. eapply chg_mono; [|exact C]. simpl; intros; lia.
     + (* a closure around one instruction *)
       assert (En : Nat.eqb nvc 0 = false) by (apply Nat.eqb_neq; exact Hnz).
       unfold arg_code in Hat, Hpc. rewrite En in Hat, Hpc.
-      apply (G_arg_closure q IH sc cur base Hfr ce p sn [x] nvc s1 k Hlt Ec Hat cx rho v P vs n o g); auto.
+      apply (G_arg_closure q IH sc cur base Hfr ce p sn [x] nvc s1 k Hlt Hce Ec Hat cx rho v P vs n o g); auto.
       rewrite Hpc. simpl. lia.
   - (* a closure *)
     unfold arg_code in Hat, Hpc.
-    apply (G_arg_closure q IH sc cur base Hfr ce p sn (x :: x2 :: r) nvc s1 k Hlt Ec Hat cx rho v P vs n o g); auto.
+    apply (G_arg_closure q IH sc cur base Hfr ce p sn (x :: x2 :: r) nvc s1 k Hlt Hce Ec Hat cx rho v P vs n o g); auto.
     rewrite Hpc. simpl. rewrite app_length. simpl. lia.
 Qed.
 
 Lemma impl_binop : forall op a b, Impl a -> Impl b -> Impl (QBinop op a b).
 Proof.
   intros op a b IHa IHb. impl_intro.
-  destruct (comp_binop_inv _ _ _ _ _ _ _ _ _ _ _ Hc) as (Hlt & cb & nb & s1 & ca & na & Eb & Ea & -> & ->). clear Hc.
+  destruct (comp_binop_inv _ _ _ _ _ _ _ _ _ _ _ Hc) as (Hlt & Hce & cb & nb & s1 & ca & na & Eb & Ea & -> & ->). clear Hc.
+  assert (Hce1 : ce_lt ce s1 = true).
+  { unfold ce_lt in *. apply andb_true_iff in Hce. destruct Hce as [H1 H2]. destruct (comp_mono _ _ _ _ _ _ _ _ _ Eb) as [_ Ms].
+    apply andb_true_iff. split; (eapply forallb_forall; intros e He); [rewrite forallb_forall in H1; specialize (H1 _ He); destruct (snd e); auto; apply Nat.ltb_lt in H1; apply Nat.ltb_lt; lia
+      |rewrite forallb_forall in H2; specialize (H2 _ He); apply Nat.ltb_lt in H2; apply Nat.ltb_lt; lia]. }
   set (cb' := arg_code (cur, nv) (S pc) sn cb nb) in *.
   set (ca' := arg_code (cur, nv) (S pc + length cb') s1 ca na) in *.
   destruct (comp_mono _ _ _ _ _ _ _ _ _ Eb) as [_ Ms1].
@@ -2070,33 +2192,35 @@ Proof.
       * eapply G_end; [eapply steps_step; [eapply st_load; [exact A1|apply Hcur|exact Hg'']|]; one st_call2_err; apply steps_refl
                       |apply chg_refl|cl|reflexivity|apply Hin2; exact Hj''].
     + (* the left operand *)
-      apply (G_arg a IHa sc cur base Hfr ce pA s1 ca na sn' nv ltac:(lia) Ea Hata
+      apply (G_arg a IHa sc cur base Hfr ce pA s1 ca na sn' nv ltac:(lia) Hce1 Ea Hata
                (ctx_of sc pL (SV r :: st) (fk' ++ fk) (base + S nv) (base + S nv) o' o'
                   (fun i => base + S nv <= i < base + S nv \/ kept sc ce i) (fun _ => False) ce n0 (ctr x))
-               rho v (fun _ _ _ => True) vs' n' o' x); simpl; auto; try lia.
-      eapply envOK_lim; [exact E'|lia].
+               rho v (fun _ _ _ => True) vs' n' o' x nv); simpl; auto; try lia.
   - (* the right operand *)
-    apply (G_arg b IHb sc cur base Hfr ce (S pc) sn cb nb s1 nv Hlt Eb Hatb
+    apply (G_arg b IHb sc cur base Hfr ce (S pc) sn cb nb s1 nv Hlt Hce Eb Hatb
              (ctx_of sc pA st fk (base + S nv) (base + S nv) o o
                 (fun i => base + S nv <= i < base + S nv \/ kept sc ce i) (fun _ => False) ce n0 (ctr g))
-             rho v (fun _ _ _ => True) vs1 n o g); simpl; auto; try lia.
-    eapply envOK_lim; [exact E1|lia].
+             rho v (fun _ _ _ => True) vs1 n o g nv); simpl; auto; try lia.
   - split; [exact HJ1|exact UN].
 Qed.
 
 Theorem impl_all : forall q, Impl q.
 Proof.
-  induction q as [ | c | a b IHa IHb | a b IHa IHb | | t IHt | t k IHt | c a b IHc IHa IHb | a b IHa IHb
-                 | a h IHa IHh | q IHq | s x i u IHs IHi IHu | s x i u e IHs IHi IHu IHe | l b IHb | l
-                 | s x b IHs IHb | x | f | o a b IHa IHb ] using query_ind'.
+  intros q. qind q.
   - apply impl_id. - apply impl_const. - apply impl_pipe; auto. - apply impl_comma; auto. - apply impl_empty.
   - apply impl_iter; auto. - apply impl_index; auto. - apply impl_if; auto. - apply impl_alt; auto.
   - apply impl_try; auto. - apply impl_array; auto. - apply impl_reduce; auto. - apply impl_foreach; auto.
   - apply impl_label; auto. - apply impl_break. - apply impl_bind; auto. - apply impl_var. - apply impl_call0.
-  - apply impl_binop; auto.
+  - apply impl_binop; auto. - apply impl_def; auto. - apply impl_callf.
 Qed.
 
 End C.
+
+(* every segment implements the denotation, for every fuel *)
+Theorem impl_all_fu : forall nt code fu q, Lemmas.Impl nt code fu q.
+Proof.
+  intros nt code fu. induction fu as [fu IH] using lt_wf_ind. intros q. apply impl_all. exact IH.
+Qed.
 
 (* ---- whole programs ---- *)
 Section Top.
@@ -2108,12 +2232,13 @@ Proof.
   destruct (IHsteps f R HR) as (f' & Hf'). exists (S f'). simpl. rewrite H. exact Hf'.
 Qed.
 
-(* how a whole run ends, given the ending of the denotation *)
+(* how a whole run ends, given the ending of the denotation (nothing is claimed when the denotation ran out of fuel) *)
 Definition run_is (r : result) (o : list jv * ending) : Prop :=
   match snd r with
   | None => o = (fst r, End)
   | Some (XErr e) => o = (fst r, Error (VE (err_of e)))
   | Some (XBrk _) => False              (* a closed program cannot end with a break *)
+  | Some XFuel => True
   end.
 
 Section RunG.
@@ -2129,11 +2254,13 @@ Hypothesis Hce : g_ce c = ce_empty.
 
 Lemma run_tend : forall s, Tend nt code c fin P s -> exists f, run_is ([], fin) (run nt code f s).
 Proof.
-  intros s (e & vs & n & g & St & _ & _ & HE & _). rewrite Hbase in St. rewrite Hce in HE.
+  intros s HT. destruct (Tend_inv _ _ _ _ _ _ HT) as [->|(e & vs & n & g & St & _ & _ & HE & _)]; [exists 0; exact I|].
+  rewrite Hbase in St. rewrite Hce in HE.
   assert (HR : exists f, run_is ([], fin) (run nt code f (B e [] vs n g))).
-  { exists 1. unfold run_is. simpl. destruct fin as [[e0|l]|]; simpl in HE.
+  { exists 1. unfold run_is. simpl. destruct fin as [[e0|l|]|]; simpl in HE.
     - subst e. reflexivity.
     - destruct HE as (y & k & i & Hk & _). simpl in Hk. discriminate.
+    - exact I.
     - subst e. reflexivity. }
   destruct HR as (f & Hf).
   destruct (run_steps _ _ _ St f _ eq_refl) as (f' & Hf'). exists f'. rewrite Hf'. exact Hf.
@@ -2149,7 +2276,7 @@ Proof.
   - simpl in HG. destruct HG as (fk' & vs3 & n3 & o3 & g3 & St & _ & _ & _ & R).
     rewrite Hsc, Hpc, Hst, Hbase in St.
     set (o4 := if (match fk' ++ [] with [] => true | f :: _ => f_ctr f <=? stamp end) then off else o3).
-    set (g4 := {| ctr := ctr g3; creg := (length code - 1, []) |}).
+    set (g4 := {| ctr := ctr g3; creg := (Some (length code - 1), []) |}).
     (* ret emits a; the next call of Next re-executes ret in backtrack mode *)
     assert (E1 : step nt code (N [Frame id off rpc stamp [] outer] rpc (SV a :: []) (fk' ++ []) vs3 n3 o3 g3) =
                  Emit a (Run rpc true None (mk [] [] (fk' ++ []) vs3 n3 o4 g4))).
@@ -2177,16 +2304,17 @@ Proof.
          | Halt None => ([], End) | Halt (Some e) => ([], Error e) | Stuck => ([], IsStuck) end).
       rewrite E2.
       unfold run_is in *. cbn [fst snd] in *. destruct (run nt code f (B None (fk' ++ []) vs3 n3 g4)) as [o e'].
-      destruct fin as [[e0|l]|]; auto; inversion Hf; subst; reflexivity. }
+      destruct fin as [[e0|l|]|]; auto; inversion Hf; subst; reflexivity. }
     destruct HR as (f' & Hf').
     destruct (run_steps _ _ _ St f' _ eq_refl) as (f'' & Hf''). exists f''. rewrite Hf''. exact Hf'.
 Qed.
 End RunG.
 
+(* for every fuel on which the denotation terminates, the machine terminates with the same observation *)
 Theorem compile_raw_correct : forall q code, compile_raw q = Some code ->
-  forall v, exists fuel, run_is (den nt q [] v) (run nt code fuel (init code v)).
+  forall fu v, exists fuel, run_is (den nt fu q [] v) (run nt code fuel (init code v)).
 Proof.
-  intros q code Hc v. unfold compile_raw in Hc.
+  intros q code Hc fu v. unfold compile_raw in Hc.
   destruct (comp q ce_empty mainscope 1 0 2) as [[[c nv] sn']|] eqn:Ec; [|discriminate]. inversion Hc; subst code. clear Hc.
   set (code := Iscope mainscope nv 0 :: c ++ [Iret]).
   set (rpc := length code - 1).
@@ -2198,27 +2326,24 @@ Proof.
   { intros i x Hi. unfold code. simpl. rewrite nth_error_app1; auto. apply nth_error_Some. congruence. }
   set (vs0 := grow [] (0 + nv)).
   set (sc0 := [Frame mainscope 0 rpc 0 [] []]).
-  set (g1 := {| ctr := 1; creg := (rpc, @nil frame) |}).
+  set (g1 := {| ctr := 1; creg := (Some rpc, @nil frame) |}).
   assert (E0 : step nt code (init code v) = Next (N sc0 1 [SV v] [] vs0 0 (0 + nv) g1)).
   { unfold init. fold rpc. change (Run 0 false None {| stk := [SV v]; scopes := []; forks := []; vars := []; lbl := 0; offset := 0;
-                                     gxs := {| ctr := 0; creg := (rpc, []) |} |})
-      with (N [] 0 [SV v] [] [] 0 0 {| ctr := 0; creg := (rpc, @nil frame) |}).
-    rewrite (st_scope nt code [] 0 mainscope nv 0); [reflexivity|]. reflexivity. }
-  assert (Hfr : frameOK sc0 mainscope 0).
-  { split.
-    - intros k. reflexivity.
-    - intros y a Hy. unfold sc0, mainscope in *. simpl in Hy. destruct (fst y) as [|[|?]]; [discriminate|lia|discriminate]. }
-  pose proof (impl_all nt code q sc0 mainscope 0 Hfr ce_empty 1 0 2 c nv sn' Ec Hat [] v [] [] vs0 0 0 (0 + nv) (0 + nv) g1
+                                     gxs := {| ctr := 0; creg := (Some rpc, []) |} |})
+      with (N [] 0 [SV v] [] [] 0 0 {| ctr := 0; creg := (Some rpc, @nil frame) |}).
+    rewrite (st_scope nt code [] 0 mainscope nv 0 _ _ _ _ _ _ rpc []); [reflexivity|reflexivity|reflexivity]. }
+  assert (Hfr : frameOK sc0 mainscope 0) by (exists rpc, 0, [], [], []; reflexivity).
+  pose proof (impl_all_fu nt code fu q sc0 mainscope 0 Hfr ce_empty 1 0 2 c nv sn' Ec Hat [] v [] [] vs0 0 0 (0 + nv) (0 + nv) g1
                 (fun _ => True) (fun _ => True) (fun _ _ _ => True)) as HI.
   cbv zeta in HI.
   set (c0 := ctx_of sc0 (1 + length c) [] [] (0 + 0) (0 + nv) (0 + nv) (0 + nv) (fun _ => True) (fun _ => True) ce_empty 0 (ctr g1)) in HI.
-  assert (HG : Gen.G2 nt code c0 (fst (den nt q [] v)) (Tend nt code c0 (snd (den nt q [] v)) (fun _ _ _ => True))
-                 (Tend nt code c0 (snd (den nt q [] v)) (fun _ _ _ => True)) (N sc0 1 [SV v] [] vs0 0 (0 + nv) g1)).
+  assert (HG : Gen.G2 nt code c0 (fst (den nt fu q [] v)) (Tend nt code c0 (snd (den nt fu q [] v)) (fun _ _ _ => True))
+                 (Tend nt code c0 (snd (den nt fu q [] v)) (fun _ _ _ => True)) (N sc0 1 [SV v] [] vs0 0 (0 + nv) g1)).
   { apply HI; auto.
-    - split; intros a k Hk; simpl in Hk; discriminate.
+    - split; [exact I|]. intros a k Hk; simpl in Hk; discriminate.
     - unfold vs0. apply grow_len.
     - split; auto. }
-  destruct (run_G code rpc c0 (fun _ _ _ => True) (snd (den nt q [] v)) mainscope 0 0 [] eq_refl Hret eq_refl
+  destruct (run_G code rpc c0 (fun _ _ _ => True) (snd (den nt fu q [] v)) mainscope 0 0 [] eq_refl Hret eq_refl
               ltac:(simpl; lia) eq_refl eq_refl eq_refl _ _ HG) as (f & Hf).
   exists (S f).
   change (run nt code (S f) (init code v)) with
@@ -2226,6 +2351,6 @@ Proof.
      | Next s' => run nt code f s'
      | Emit v s' => let '(o, e) := run nt code f s' in (v :: o, e)
      | Halt None => ([], End) | Halt (Some e) => ([], Error e) | Stuck => ([], IsStuck) end).
-  rewrite E0. destruct (den nt q [] v) as [ws fin]. exact Hf.
+  rewrite E0. destruct (den nt fu q [] v) as [ws fin]. exact Hf.
 Qed.
 End Top.
